@@ -905,6 +905,13 @@ func (v *view) oracleC03() {
 	if !strict || v.clientSideFailure() {
 		return
 	}
+	if t.Err != nil && t.Err.Class == "error" {
+		for _, sd := range v.hSend {
+			if sd.Msg != nil && sd.Msg.Kind == 4 {
+				return // the response could not be copied/decoded on the caller's side: not the call's final status
+			}
+		}
+	}
 	if v.single && !okT && (v.responsesProduced() > 1 || len(v.hSend) > 1 || (v.hReturn.Err.IsNil() && (v.responsesProduced() != 1 || len(v.hSend) != 1))) {
 		return // the client aborted the call over the response count
 	}
@@ -1260,6 +1267,9 @@ func (v *view) oracleC10() {
 	v.relevant("C10")
 	if f["caller-values-visible"] != "" {
 		v.fail("C10", "caller-values-visible", "%s caller context value(s) are visible in the handler's context", f["caller-values-visible"])
+	}
+	if f["incoming-md-absent"] != "" {
+		v.fail("C10", "incoming-metadata-absent", "the handler's context carries no incoming metadata at all (metadata.FromIncomingContext reports false); over a network it always does")
 	}
 	if f["outgoing-md-visible"] != "" {
 		v.fail("C10", "outgoing-md-visible", "the caller's outgoing metadata is visible as outgoing metadata in the handler's context")
